@@ -193,6 +193,38 @@ func checkSyncRoundTrip(c *an.Ctx, id string, syncFn, flushLoop *ssa.Function) {
 					drained = true
 				}
 			}
+			if !drained {
+				// the same decision carried by a flag: `for drained := false; !drained; { select { case …:
+				// …; default: drained = true } }; close(dn)` — the flag is known true at the close, and it
+				// becomes true only on the default edge of the non-blocking receive
+				an.Instrs(flushLoop, func(in2 ssa.Instruction) {
+					ph, isPhi := in2.(*ssa.Phi)
+					if !isPhi || drained || !fs.Has(an.B(t.Of(ph))) {
+						return
+					}
+					okAll, nTrue := true, 0
+					for i, e := range ph.Edges {
+						if k, isK := e.(*ssa.Const); isK && k.Value != nil && k.Value.ExactString() == "false" {
+							continue
+						}
+						if e == ssa.Value(ph) {
+							continue // carried unchanged around the loop: inside the loop it is false
+						}
+						nTrue++
+						ef := ff.EdgeFacts(ph.Block().Preds[i], ph.Block())
+						okEdge := false
+						for _, s := range selects {
+							if !s.Blocking && len(s.States) == 1 && s.States[0].Send == nil && isChan(s.States[0].Chan, "writes") && ef.Has(an.NE(t.Of(s)+"#0", "0")) {
+								okEdge = true
+							}
+						}
+						okAll = okAll && okEdge
+					}
+					if okAll && nTrue > 0 {
+						drained = true
+					}
+				})
+			}
 			c.Check(drained, id, "sync-ack-after-drain", "the write loop closes a Sync caller's channel only when a non-blocking receive has just found the write queue empty", flushLoop, call, "", fs)
 		})
 		c.Min(id, "acknowledgements of Sync in the write loop", nClose, 1)
